@@ -418,6 +418,10 @@ def _ctor_options_stream(ctx, n, nprng):
         xs = xc.transformed(S)
         if xs.N > 16: continue
         flags = dict(NOSYM=(k % 2 == 0), noreduce=(k % 4 >= 2))
+        if flags['noreduce'] and not flags['NOSYM']:
+            # the symmetry search of a very skewed cell kept as is enumerates a huge candidate box (minutes): not the subject here
+            gm = xs.L.T @ xs.L; gi = np.linalg.inv(gm); gmax = max(gm[i, i] for i in range(d))
+            if np.prod([2 * max(1, int(np.floor(np.sqrt(gmax * gi[i, i]) + 1e-8))) + 1 for i in range(d)]) > 400: continue
         ctx.count('ctor-options:NOSYM=%d,noreduce=%d' % (flags['NOSYM'], flags['noreduce']))
         ctx.case(('ctor', xs.key(), str(flags)), nontrivial=True)
         rp = _replay(xs, flags, dict(base=xc.name, supercell_matrix=S))
